@@ -58,14 +58,15 @@ Record BState := mkB {
   b_remote : option string; b_no_embed : bool; b_hash_alg : option string
 }.
 
-(* ResourceStore::get along the builder's resolver chain (resource_store.rs chain_resolver_from, ingredient.rs
-   IngredientStoreResolver): local bytes are always found; a URI into the archive store is found only through the store
-   resolver that Builder::add_ingredient chains from an ingredient (Reader::into_builder chains nothing for the
-   manifest's own resources); the data-box arm of the resolver does not find the absolute URI of a v1 data box. *)
+(* ResourceStore::get along the builder's resolver chain (resource_store.rs chain_resolver_from, manifest.rs
+   ManifestStoreResolver, ingredient.rs IngredientStoreResolver): local bytes are always found; a URI into the archive
+   store is found through the manifest's store resolver that Reader::into_builder chains (fix 39e7c1520) or through an
+   ingredient's store resolver, so it no longer matters whether the builder has an ingredient; the data-box arm of both
+   resolvers does not find the absolute URI of a v1 data box. *)
 Definition resolve (has_ingredient : bool) (r : Res) : option nat :=
   match r with
   | Local p => Some p
-  | InStore p => if has_ingredient then Some p else None
+  | InStore p => Some p
   | InDatabox _ => None
   end.
 Definition has_ings (l : list IngM) : bool := match l with [] => false | _ => true end.
